@@ -24,7 +24,10 @@ Last(s) == s[Len(s)]
 Nodes(g)       == 1..g.n
 InitSet(g)     == Range(g.init)
 IsTable(g)     == g.family \in {"", "table"}
-InB(g, s)      == IF IsTable(g) THEN g.inb[s] ELSE TRUE
+\* big (formula) graphs: optionally everything with s % m = r is outside the boundary (inb_mod = <<m, r>>)
+InB(g, s)      == IF IsTable(g) THEN g.inb[s]
+                  ELSE IF g.family = "fringed" THEN s < g.n
+                  ELSE IF "inb_mod" \in DOMAIN g /\ Len(g.inb_mod) = 2 THEN s % g.inb_mod[1] # g.inb_mod[2] ELSE TRUE
 InitB(g)       == {s \in InitSet(g) : InB(g, s)}
 (* Arithmetic families (large graphs given by formulas; the same formulas are implemented by the
    harness's TableModel): ordered successor list, 0 = ignored action *)
@@ -34,6 +37,10 @@ FamilySucc(g, s) ==
     [] g.family = "grid" ->
          LET w == g.params[1]  h == g.params[2]  i == s - 1  x == i % w  y == i \div w IN
          <<IF x + 1 < w THEN y * w + x + 2 ELSE 0, IF y + 1 < h THEN (y + 1) * w + x + 1 ELSE 0>>
+    [] g.family = "fringed" ->      \* a w x h grid (right, down) whose every state also has f successors outside the boundary (node n)
+         LET w == g.params[1]  h == g.params[2]  f == g.params[3]  i == s - 1  x == i % w  y == i \div w IN
+         IF s = g.n THEN <<>>
+         ELSE <<IF x + 1 < w THEN y * w + x + 2 ELSE 0, IF y + 1 < h THEN (y + 1) * w + x + 1 ELSE 0>> \o [k \in 1..f |-> g.n]
     [] g.family = "tree" ->
          <<IF 2 * s <= g.n THEN 2 * s ELSE 0, IF 2 * s + 1 <= g.n THEN 2 * s + 1 ELSE 0>>
     [] g.family = "chainbush" ->
